@@ -135,19 +135,23 @@ theorem shutdownDrain_cinv (cfg : Cfg) (st : State) (c : CInv st) : CInv (shutdo
 
 theorem step_cinv (cfg : Cfg) (tok : Nat) (st : State) (i : In) (h : Inv st) (c : CInv st) : CInv (step cfg tok st i).1 := by
   cases i with
-  | listen => exact c
+  | listen v6 => exact c
   | recvFrom lid dgs =>
     simp only [step]; split
     · exact c
-    · exact recvMany_cinv cfg lid dgs st h c
+    · split
+      · exact recvMany_cinv cfg lid dgs st h c
+      · exact c
   | clientRecv sid dgs =>
     simp only [step]; split
     · exact c
     · split
       · exact c
-      · exact clientRecvMany_cinv cfg sid dgs st h c
-  | connect a => exact cinv_insert st h c _ _
-  | via lid a =>
+      · split
+        · exact clientRecvMany_cinv cfg sid dgs st h c
+        · exact c
+  | connect a v6 => exact cinv_insert st h c _ _
+  | via lid a v6 =>
     simp only [step, viaDo]
     have bump : CInv { st with nextSid := st.nextSid + 1 } := by
       unfold CInv at *
@@ -160,7 +164,9 @@ theorem step_cinv (cfg : Cfg) (tok : Nat) (st : State) (i : In) (h : Inv st) (c 
     · exact bump
     · split
       · exact bump
-      · exact cinv_insert st h c _ _
+      · split
+        · exact bump
+        · exact cinv_insert st h c _ _
   | cmdSend sid p ans =>
     simp only [step]; split
     · exact c
@@ -172,7 +178,7 @@ theorem step_cinv (cfg : Cfg) (tok : Nat) (st : State) (i : In) (h : Inv st) (c 
         cases hr : s.role with
         | client =>
           dsimp only
-          cases kernelAns p ans with
+          cases kernelAns _ p ans with
           | ok => exact cinv_touch st c sid s _ hs h
           | eagain =>
             dsimp only
@@ -188,7 +194,7 @@ theorem step_cinv (cfg : Cfg) (tok : Nat) (st : State) (i : In) (h : Inv st) (c 
           | none => exact closeNow_cinv cfg st sid _ h c
           | some l =>
             dsimp only
-            cases kernelAns p ans with
+            cases kernelAns _ p ans with
             | ok => exact cinv_touch st c sid s _ hs h
             | eagain =>
               dsimp only
